@@ -85,6 +85,34 @@ type proto struct {
 	observed bool // root instance whose events are recorded
 }
 
+// CPing is received by the channel protocol through an aggregating channel.
+type CPing struct {
+	Run int
+	ID  int
+}
+
+const chanProtoName = "VerifC05Chan"
+
+// chanProto registers an aggregating channel of length 1 and does not read it until released:
+// a protocol that is slow in taking its batches
+type chanProto struct {
+	*onet.TreeNodeInstance
+	ch chan []struct {
+		*onet.TreeNode
+		CPing
+	}
+}
+
+func newChanProto(n *onet.TreeNodeInstance) (onet.ProtocolInstance, error) {
+	p := &chanProto{TreeNodeInstance: n}
+	if err := p.RegisterChannelLength(&p.ch, 1); err != nil {
+		return nil, err
+	}
+	return p, nil
+}
+
+func (p *chanProto) Start() error { return nil }
+
 func newProto(n *onet.TreeNodeInstance) (onet.ProtocolInstance, error) {
 	p := &proto{TreeNodeInstance: n, run: -1}
 	if err := p.RegisterHandlers(p.handlePing, p.handleGo); err != nil {
@@ -152,6 +180,9 @@ type input struct {
 	Hold     int   `json:"hold,omitempty"` // keep the blocked handler blocked for this many ms after every other run has finished
 	Backlog  int   `json:"backlog,omitempty"` // messages injected for the blocked run behind its blocked handler
 	Trickle  int   `json:"trickle,omitempty"` // messages that keep arriving for the blocked run while its backlog is worked off
+	// one more instance on the server, of a protocol with an aggregating channel of length 1 that it
+	// does not read until the release: its dispatch routine sits in the channel send meanwhile
+	ChanBlock bool `json:"chan_block,omitempty"`
 }
 
 type obs struct {
@@ -234,6 +265,40 @@ func run(raw json.RawMessage) lib.Case {
 		roots[k] = p
 	}
 	nchildren := len(tree.Root.Children)
+	var chanX *chanProto
+	var wgX sync.WaitGroup
+	if in.ChanBlock {
+		pi, err := lt.CreateProtocol(chanProtoName, tree)
+		if err != nil {
+			lt.CloseAll()
+			return lib.Case{Discard: true}
+		}
+		chanX = pi.(*chanProto)
+		// four complete children rounds: the first batch fills the channel, the second blocks the
+		// dispatch routine in the send, the others queue up behind it
+		wgX.Add(1)
+		go func() {
+			defer wgX.Done()
+			tok := chanX.Token()
+			for r := 0; r < 4; r++ {
+				for _, child := range tree.Root.Children {
+					rootOv.TransmitMsg(&onet.ProtocolMsg{
+						From: tok.ChangeTreeNodeID(child.ID), To: tok, ServerIdentity: child.ServerIdentity,
+						Msg: &CPing{Run: in.Runs, ID: r}, MsgType: network.MessageType(&CPing{}), Size: 8}, nil)
+				}
+				if r == 1 {
+					time.Sleep(50 * time.Millisecond) // let the dispatch routine reach the full channel
+				}
+			}
+		}()
+		waitX := make(chan struct{})
+		go func() { wgX.Wait(); close(waitX) }()
+		select {
+		case <-waitX:
+		case <-time.After(5 * time.Second):
+			// accepting for the slow instance does not return: the other runs are fed all the same
+		}
+	}
 	want := map[int]int{}
 	blockedMsgID := -1
 	var wg sync.WaitGroup
@@ -329,6 +394,19 @@ func run(raw json.RawMessage) lib.Case {
 	}
 	if in.Blocked >= 0 {
 		rec.stamp(in.Blocked, "ORelease", 0)
+	} else if in.ChanBlock {
+		rec.stamp(in.Runs, "ORelease", 0)
+	}
+	if chanX != nil {
+		go func() {
+			for {
+				select {
+				case <-chanX.ch:
+				case <-time.After(20 * time.Second):
+					return
+				}
+			}
+		}()
 	}
 	close(rec.release)
 	inject := func(k, id, work int) {
@@ -398,6 +476,9 @@ func run(raw json.RawMessage) lib.Case {
 		rec.stamp(k, "OClose", 0)
 		p.Done()
 	}
+	if chanX != nil {
+		chanX.Done()
+	}
 	lt.WaitDone(2 * time.Second)
 	lt.CloseAll()
 
@@ -421,7 +502,16 @@ func run(raw json.RawMessage) lib.Case {
 	if in.Blocked >= 0 {
 		blocked = fmt.Sprintf("(Some %d)", in.Blocked)
 	}
-	coq := fmt.Sprintf("mkCase %d %s %s %s %s", in.Runs, lib.List(items), lib.NatList(must), blocked, lib.NatList(sent))
+	ninst := in.Runs
+	if in.ChanBlock {
+		// the slow channel instance is instance number Runs: not observed, only released
+		ninst++
+		sent = append(sent, 0)
+		if in.Blocked < 0 {
+			blocked = fmt.Sprintf("(Some %d)", in.Runs)
+		}
+	}
+	coq := fmt.Sprintf("mkCase %d %s %s %s %s", ninst, lib.List(items), lib.NatList(must), blocked, lib.NatList(sent))
 	head := items
 	if len(head) > 24 {
 		head = head[:24]
@@ -444,6 +534,9 @@ func run(raw json.RawMessage) lib.Case {
 	}
 	if in.Trickle > 0 {
 		class += "-trickle"
+	}
+	if in.ChanBlock {
+		class += "-chanblock"
 	}
 	if feederStuck {
 		class += "+feederstuck"
@@ -499,6 +592,9 @@ func generate(rng *rand.Rand, tier string) []interface{} {
 				in.Trickle = 100 + rng.Intn(150)
 			}
 		}
+		if in.Blocked < 0 && rng.Intn(3) == 0 {
+			in.ChanBlock = true
+		}
 		in.Stall = rng.Intn(2) == 0
 		ins = append(ins, in)
 	}
@@ -517,6 +613,9 @@ func corpus() []interface{} {
 		input{TCP: true, Servers: 3, Runs: 3, PerChild: 3, Local: 2, Feeders: 1, Work: []int{0, 50}, Blocked: 1, Backlog: 260},
 		input{Servers: 3, Runs: 2, PerChild: 2, Local: 2, Feeders: 1, Work: []int{0}, Blocked: 1, Backlog: 40, Trickle: 220},
 		input{Servers: 3, Runs: 2, PerChild: 1, Local: 1, Feeders: 1, Work: []int{0}, Blocked: 0, Backlog: 75, Trickle: 120})
+	// a protocol that does not take its batches from an aggregating channel
+	l = append(l, input{Servers: 3, Runs: 2, PerChild: 3, Local: 4, Feeders: 2, Work: []int{0}, Blocked: -1, ChanBlock: true},
+		input{TCP: true, Servers: 4, Runs: 2, PerChild: 2, Local: 3, Feeders: 1, Work: []int{0, 50}, Blocked: -1, ChanBlock: true})
 	// a handler blocked for a long time (watchdogs, time-outs on the dispatch): 11.5 s, thorough also 65 s
 	l = append(l, input{Servers: 3, Runs: 2, PerChild: 2, Local: 3, Feeders: 1, Work: []int{0}, Blocked: 0, Hold: 11500})
 	for i, a := range os.Args {
@@ -533,7 +632,10 @@ func main() {
 	if _, err := onet.GlobalProtocolRegister(protoName, newProto); err != nil {
 		panic(err)
 	}
-	network.RegisterMessages(&Ping{}, &Go{})
+	network.RegisterMessages(&Ping{}, &Go{}, &CPing{})
+	if _, err := onet.GlobalProtocolRegister(chanProtoName, newChanProto); err != nil {
+		panic(err)
+	}
 	lib.Main(lib.Harness{
 		Prop:   "C05",
 		Import: "Onet.Corr.C05",
